@@ -6,6 +6,7 @@ machinery) are collected in `ParserShape`.
 -/
 import TgModel.Lemmas.IdeHandlers
 import TgModel.Props.C01
+import TgModel.Lemmas.ParserFinish
 
 namespace Tg
 namespace Ide
@@ -72,7 +73,8 @@ theorem parseFile_ok (hp : ParserShape) {text : String} {tree : PTree} {errs : L
     unfold Grammar.parse at hr
     split at hr
     · rename_i s hx
-      have herr := (inv_exec Grammar.defs Tables.recoverTokens text.toList _ _ _ s (PState.inv_init _) hx).errs
+      have hinv := inv_exec Grammar.defs Tables.recoverTokens text.toList _ _ _ s (PState.inv_init _) hx
+      have herr := PState.finish_errs hinv (source_file_ends_at_eof Tables.recoverTokens _ _ s hx)
       split at hr
       · simp only [Grammar.ParseOut.ok.injEq] at hr
         subst hr
